@@ -24,7 +24,7 @@ DEFAULTS = dict(
     agg_ops=('Sum', 'Min', 'Max', 'Count', '+'),
     pred_agg_ops_n=('Sum', 'Min', 'Max', 'Count', '+'),
     pred_agg_ops_s=('Min', 'Max'),
-    p_sibling_reuse=0.0, p_feed_sibling=0.0, nest_depth=1,
+    p_sibling_reuse=0.0, p_feed_sibling=0.0, nest_depth=1, p_multi_combine=0.0,
     p_shuffle=1.0, p_short=0.3, p_colnames=0.1,
 )
 
@@ -518,6 +518,12 @@ class Gen(object):
             lits.append(self.binding_literal(env, depth))
         for _ in range(rng.choice((0, 0, 1, 1, 2))):
             lits.append(self.filter_literal(env, depth))
+        if depth > 0 and self.chance(self.o['p_multi_combine']):
+            # several sibling combines in one rule (shared local names, one reading
+            # the result of another): the shape DisambiguateCombineVariables protects
+            for _ in range(rng.randint(2, 3)):
+                lits.append(self.combine(env, depth))
+            self.labels.add('multi_combine_rule')
         return lits
 
     def disjunction(self, env):
